@@ -81,6 +81,10 @@ class StandIn:
     def sensor_model(self, state, covariance, *, sensor_key, sensor_reading):
         if len(self.calls) >= self.budget:
             raise BudgetExceeded()
+        if sensor_reading.rid % 5 == 0:
+            # like a real filter that discards an outlier: hands back the very objects it was given (estimate unchanged)
+            self.calls.append(("S", sensor_key, sensor_reading.rid, state.tok, covariance.tok, state.tok, covariance.tok, sensor_reading.sensor))
+            return state, covariance
         so, co = tokS(state.tok, sensor_reading.sensor, sensor_reading.rid), tokS(covariance.tok, sensor_reading.sensor, sensor_reading.rid)
         self.calls.append(("S", sensor_key, sensor_reading.rid, state.tok, covariance.tok, so, co, sensor_reading.sensor))
         return Tok(so), Tok(co)
